@@ -4,6 +4,10 @@
  *   VF_CP_KILL_BEFORE=n   before event n is executed
  *   VF_CP_KILL_AFTER=n    right after event n was executed
  *   VF_CP_PARTIAL=n:k     event n must be a write/writev: only its first k bytes are written, then kill
+ *   VF_CP_FAIL=n:k        event n must be a write/writev: its first k bytes reach the file, then it fails with ENOSPC, and so does
+ *                         every later write to the same descriptor (a disk that fills up); the process goes on
+ *   VF_CP_KILL_AT_MARK=m  kill when the application announces iteration m (vf_cp_mark)
+ *   VF_CP_KILL_FIRST_WRITE=1  kill before the first write/writev event of this process
  * VF_CP_LOG=<file> receives one line per event, written with a raw write so that it survives the kill. */
 #define _GNU_SOURCE
 #include <dlfcn.h>
@@ -23,7 +27,9 @@
 static char tracked[MAXFD];
 static const char* cp_dir;
 static size_t cp_dir_len;
-static long kill_before = -1, kill_after = -1, partial_ev = -1, partial_bytes = -1;
+static long kill_before = -1, kill_after = -1, partial_ev = -1, partial_bytes = -1, fail_ev = -1, fail_bytes = 0, kill_at_mark = -1;
+static int kill_first_write = 0;
+static char failing[MAXFD];
 static int log_fd = -1;
 static long event_no = 0;
 static int inited = 0;
@@ -38,6 +44,9 @@ static void init(void)
     if ((s = getenv("VF_CP_KILL_BEFORE"))) kill_before = atol(s);
     if ((s = getenv("VF_CP_KILL_AFTER"))) kill_after = atol(s);
     if ((s = getenv("VF_CP_PARTIAL"))) { partial_ev = atol(s); const char* c = strchr(s, ':'); partial_bytes = c ? atol(c + 1) : 0; }
+    if ((s = getenv("VF_CP_FAIL"))) { fail_ev = atol(s); const char* c = strchr(s, ':'); fail_bytes = c ? atol(c + 1) : 0; }
+    if ((s = getenv("VF_CP_KILL_AT_MARK"))) kill_at_mark = atol(s);
+    if ((s = getenv("VF_CP_KILL_FIRST_WRITE"))) kill_first_write = atoi(s);
     if ((s = getenv("VF_CP_LOG"))) log_fd = (int)syscall(SYS_openat, AT_FDCWD, s, O_WRONLY | O_CREAT | O_APPEND, 0644);
 }
 
@@ -84,6 +93,7 @@ void vf_cp_mark(int k)
 {
     init();
     logline("MARK %d\n", k);
+    if (k == kill_at_mark) die();
 }
 
 FILE* fopen64(const char* path, const char* mode)
@@ -145,6 +155,19 @@ ssize_t write(int fd, const void* buf, size_t count)
     init();
     if (fd < 0 || fd >= MAXFD || !tracked[fd]) return real(fd, buf, count);
     long n = begin_event("write", "-", (long)count);
+    if (kill_first_write) die();
+    if (failing[fd]) { logline("FAILED %ld\n", n); end_event(n); errno = ENOSPC; return -1; }
+    if (n == fail_ev)
+    {
+        size_t k = fail_bytes < 0 ? 0 : (size_t)fail_bytes;
+        if (k > count) k = count;
+        if (k) real(fd, buf, k);
+        failing[fd] = 1;
+        logline("FAILED %ld\n", n);
+        end_event(n);
+        errno = ENOSPC;
+        return -1;
+    }
     if (n == partial_ev)
     {
         size_t k = partial_bytes < 0 ? 0 : (size_t)partial_bytes;
@@ -168,6 +191,23 @@ ssize_t writev(int fd, const struct iovec* iov, int iovcnt)
     size_t total = 0;
     for (int i = 0; i < iovcnt; ++i) total += iov[i].iov_len;
     long n = begin_event("writev", "-", (long)total);
+    if (kill_first_write) die();
+    if (failing[fd]) { logline("FAILED %ld\n", n); end_event(n); errno = ENOSPC; return -1; }
+    if (n == fail_ev)
+    {
+        size_t k = fail_bytes < 0 ? 0 : (size_t)fail_bytes;
+        for (int i = 0; i < iovcnt && k > 0; ++i)
+        {
+            size_t m = iov[i].iov_len < k ? iov[i].iov_len : k;
+            if (m) realw(fd, iov[i].iov_base, m);
+            k -= m;
+        }
+        failing[fd] = 1;
+        logline("FAILED %ld\n", n);
+        end_event(n);
+        errno = ENOSPC;
+        return -1;
+    }
     if (n == partial_ev)
     {
         size_t k = partial_bytes < 0 ? 0 : (size_t)partial_bytes;
@@ -195,6 +235,7 @@ int fclose(FILE* f)
     long n = begin_event("fclose", "-", 0);
     int r = real(f);
     tracked[fd] = 0;
+    failing[fd] = 0;
     end_event(n);
     return r;
 }
@@ -208,6 +249,7 @@ int close(int fd)
     long n = begin_event("close", "-", 0);
     int r = real(fd);
     tracked[fd] = 0;
+    failing[fd] = 0;
     end_event(n);
     return r;
 }
